@@ -38,7 +38,7 @@ def run(tier: str, rep: Report):
     seqs = sorted({tuple(x["ops"]) for x in runs})
     terms = c07.model_terms(rep, wd, 1)
     if tier == "quick":
-        terms = terms[::4]
+        terms = [t for k, t in enumerate(terms) if t[1][0] in ("atom", "complex") or k % 4 == 0]
     pool = Pool(hosts, per_version=2)
     files = []
     try:
@@ -49,6 +49,11 @@ def run(tier: str, rep: Report):
             prod_files[v] = f
             fs = corpus.sample_files(v, 15 if tier == "quick" else 150, "c15") + corpus.repo_examples()[:10]
             srcs = [{"id": f"sn:{i}", "src": s, "mode": m} for i, (m, s) in enumerate(df.SNIPPETS)]
+            srcs += [{"id": f"ex:{n}", "src": s} for n, s in df.REPO_EXAMPLES.items()]
+            import api_family
+            import c14
+            srcs += [{"id": f"base:{b['id']}", "src": b["src"]} for b in api_family.bases_for(v)]
+            srcs += [{"id": f"tpl:{n}", "src": s} for n, s in c14.TEMPLATES]
             pargs[v] = [{"path": f, "files": fs, "sources": srcs, "terms": terms}]
         res = pool.map_all("jsonw.produce", pargs)
         rep.cov["documents_per_producer"] = {v: res[v][0] for v in res}
